@@ -303,6 +303,47 @@ for values in ([1.0, 2.0, 3.0, 4.0], [0.57 * 100, -0.29 * 100, 3.0, 1.0], [56.99
             {"table": [repr(v) for v in values]}, lambda values=values: float_table_contract(values))
 
 
+def equal_alphabet_objects(kind):
+    """sequences whose alphabet *equals* the alphabet of the matrix without being the same object (built separately,
+    or copied / unpickled as in multiprocessing) are aligned like any other: same optimum as with the shared object"""
+    import copy
+    import pickle
+    if kind == "letter alphabets built separately":
+        mk = lambda: seq.LetterAlphabet("ACGT")
+        a_m, a_1, a_2 = mk(), mk(), mk()
+        table = np.array([[5, -4, -4, -4], [-4, 5, -4, -4], [-4, -4, 5, -4], [-4, -4, -4, 5]], dtype=np.int32)
+        m = align.SubstitutionMatrix(a_m, a_m, table)
+        s1, s2 = seq.GeneralSequence(a_1, "ACGTTGCA"), seq.GeneralSequence(a_2, "ACTTGGCA")
+        r1, r2 = seq.GeneralSequence(a_m, "ACGTTGCA"), seq.GeneralSequence(a_m, "ACTTGGCA")
+    elif kind == "general alphabets built separately":
+        mk = lambda: seq.Alphabet(["x", "yy", 3])
+        a_m, a_1 = mk(), mk()
+        table = np.array([[2, -1, -1], [-1, 2, -1], [-1, -1, 2]], dtype=np.int32)
+        m = align.SubstitutionMatrix(a_m, a_m, table)
+        s1, s2 = seq.GeneralSequence(a_1, ["x", "yy", 3, "x"]), seq.GeneralSequence(a_1, ["x", 3, "x"])
+        r1, r2 = seq.GeneralSequence(a_m, ["x", "yy", 3, "x"]), seq.GeneralSequence(a_m, ["x", 3, "x"])
+    else:
+        m = align.SubstitutionMatrix.std_nucleotide_matrix()
+        r1, r2 = seq.NucleotideSequence("ACGTNNGCA", ambiguous=True), seq.NucleotideSequence("ACTTRGCA", ambiguous=True)
+        dup = (lambda x: pickle.loads(pickle.dumps(x))) if kind == "ambiguous nucleotide sequences after pickling" else copy.deepcopy
+        s1, s2 = dup(r1), dup(r2)
+    for gap, local in ((-3, False), ((-5, -1), True)):
+        ref = align.align_optimal(r1, r2, m, gap_penalty=gap, local=local, max_number=1)[0].score
+        try:
+            got = align.align_optimal(s1, s2, m, gap_penalty=gap, local=local, max_number=1)[0].score
+        except Exception as e:
+            return f"{kind}: align_optimal refused sequences whose alphabet equals the matrix alphabet: {type(e).__name__}: {e}"
+        if got != ref:
+            return f"{kind}: score {got}, with the alphabet object of the matrix {ref}"
+    return None
+
+
+for kind in ("letter alphabets built separately", "general alphabets built separately", "ambiguous nucleotide sequences after pickling",
+             "ambiguous nucleotide sequences after deepcopy"):
+    R.check("align_optimal: reported score == maximum over all alignments; returned alignments valid, honestly scored, distinct", "equal alphabets that are different objects", {"kind": kind},
+            lambda kind=kind: equal_alphabet_objects(kind))
+
+
 def extreme_scores(value):
     """scores at the edge of the 32-bit range would overflow in the alignment table: the constructor refuses the two
     extreme values; large but safe magnitudes are accepted and aligned correctly"""
